@@ -83,9 +83,30 @@ def haystack_start(b, sym, find):
     return ("unknown", "origin chain too long"), None
 
 
+REVERSE = ("memmem::FinderRev::<'n>::rfind", "memmem::rfind", "memmem::rfind_iter", "memmem::FinderRev::<'n>::rfind_iter", "str::<impl str>::rfind",
+           "Iterator::rposition", "memchr::memrchr", "slice::<impl [T]>::rsplit", "slice::<impl [T]>::rsplitn", "str::<impl str>::rsplit_once")
+
+
+def _last_occurrence_search(chk, fx, fn, b):
+    """A message ends at the *first* delimiter in the buffer.  A receiver that looks for the last one (reverse search) hands several buffered messages on as one, or misses a delimiter followed by the next message's bytes."""
+    bodies = [b]
+    for c in b.calls():
+        hb = None if c.macro else (fx.mir.get(c.rdef) or fx.mir.get(c.defn))
+        if hb is not None and hb.crate == "netconf" and hb is not b and "::transport::" in hb.name:
+            bodies.append(hb)
+    rev = [(x, c) for x in bodies for c in x.calls_to(*REVERSE, user_only=True)]
+    for (x, c) in rev:
+        chk.instance("C06/R2", "%s: the message boundary is the first delimiter in the buffer" % fn, x.name, c.loc(), holds=False,
+                     key="C06/R2 %s last-occurrence-search" % fn,
+                     detail="%s looks for the last occurrence: with two messages buffered the split is after the second one" % c.name())
+    return bool(rev)
+
+
 def stream_receiver(chk, fx, kind, b, mlen):
     chk.analysed(b.name)
     fn = "transport::%s::Receiver::recv" % kind
+    if _last_occurrence_search(chk, fx, fn, b):
+        return
     sym = TC.Sym(b, mlen)
     finds = b.calls_to("memmem::Finder::<'n>::find", user_only=True)
     reads = b.calls_to("AsyncReadExt::read_buf", "AsyncReadExt::read", user_only=True)
@@ -232,6 +253,8 @@ def _is_buffer_param(body, find):
 def pump(chk, fx, b, mlen):
     chk.analysed(b.name)
     fn = "transport::ssh pump"
+    if _last_occurrence_search(chk, fx, fn, b):
+        return
     sym = TC.Sym(b, mlen)
     finds = b.calls_to("memmem::Finder::<'n>::find", user_only=True)
     splits = b.calls_to("BytesMut::split_to", user_only=True)
